@@ -466,7 +466,7 @@ pub fn adjacency_lists(g: &NormGraph, weighted: bool) -> Vec<Vec<(usize, f64)>> 
 }
 
 /// single-source distances, shortest-path counts and a settle order (Dijkstra with exact ties)
-fn sssp_counts(adj: &[Vec<(usize, f64)>], s: usize) -> (Vec<f64>, Vec<f64>, Vec<usize>, Vec<Vec<usize>>) {
+pub fn sssp_counts(adj: &[Vec<(usize, f64)>], s: usize) -> (Vec<f64>, Vec<f64>, Vec<usize>, Vec<Vec<usize>>) {
     let n = adj.len();
     let mut dist = vec![INF; n];
     let mut sigma = vec![0.0; n];
